@@ -336,10 +336,12 @@ structure DState where
   r0 : Router
   r1 : Router
   cfg : RouterCfg
+  /-- the Bloom filter of the `TensorStore` whose router is register 1 (`none`: built without one) -/
+  flt : Option (List Name) := none
 
 def defaultCfg : RouterCfg := ⟨384, 10000, 10000, 67108864⟩
 
-def DState.init : DState := ⟨fun _ => none, Router.new defaultCfg, Router.new defaultCfg, defaultCfg⟩
+def DState.init : DState := ⟨fun _ => none, Router.new defaultCfg, Router.new defaultCfg, defaultCfg, none⟩
 
 def parseTData (s : String) : Option TData :=
   if s = "-" then some []
@@ -389,6 +391,11 @@ def setReg (st : DState) (r : String) (x : Router) : DState :=
 
 def parseName (h : String) : Option Name := (strOfHex h).map (·.toList)
 
+def getTS (st : DState) : TStore := ⟨st.r1, st.flt⟩
+def setTS (st : DState) (s : TStore) : DState := { st with r1 := s.router, flt := s.filter }
+def fpNone : List Name → Name → Bool := fun _ _ => false
+def fpAll : List Name → Name → Bool := fun _ _ => true
+
 def parseEntries (s : String) : Option (List (Name × TData)) :=
   if s = "-" then some []
   else (s.splitOn "&").mapM (fun item =>
@@ -405,7 +412,7 @@ def storeStep (st : DState) (ws : List String) : Option (DState × String) :=
     match dim.toNat?, cap.toNat?, thr.toNat?, seg.toNat? with
     | some dim, some cap, some thr, some seg =>
       let cfg : RouterCfg := ⟨dim, cap, thr, seg⟩
-      some ({ st with cfg := cfg, r0 := Router.new cfg, r1 := Router.new cfg }, "ok")
+      some ({ st with cfg := cfg, r0 := Router.new cfg, r1 := Router.new cfg, flt := none }, "ok")
     | _, _, _, _ => none
   | ["rt_put", r, key, data, victim] =>
     match getReg st r, parseName key, parseTData data, victim.toNat? with
@@ -471,6 +478,66 @@ def storeStep (st : DState) (ws : List String) : Option (DState × String) :=
   | ["rt_loadv2", entries] =>
     match parseEntries entries with
     | some es => some ({ st with r1 := loadV2Entries defaultCfg es }, "ok")
+    | none => none
+  -- the `TensorStore` in front of register 1: router + optional Bloom filter (`TStore`). The filter's
+  -- false positives are not an input: an answer that would depend on them is shown as `fp-dependent`
+  -- (the two extreme filters, no false positives / nothing but, bracket every other one)
+  | ["ts_new", bloom] =>
+    match parseBool bloom with
+    | some b => some (setTS st (TStore.new st.cfg b), "ok")
+    | none => none
+  | ["ts_put", key, data, victim] =>
+    match parseName key, parseTData data, victim.toNat? with
+    | some key, some d, some victim => some (setTS st ((getTS st).put key d victim), "ok")
+    | _, _, _ => none
+  | ["ts_del", key] =>
+    match parseName key with
+    | some key => let y := (getTS st).delete key; some (setTS st y.1, if y.2 then "ok" else "notfound")
+    | none => none
+  | ["ts_get", key] =>
+    match parseName key with
+    | some key =>
+      let s := getTS st
+      let a := s.get fpNone key
+      some (setTS st (s.touch fpNone key), if a = s.get fpAll key then showOptData a else "fp-dependent")
+    | none => none
+  | ["ts_exists", key] =>
+    match parseName key with
+    | some key =>
+      let s := getTS st
+      let a := s.exists fpNone key
+      some (st, if a = s.exists fpAll key then (if a then "1" else "0") else "fp-dependent")
+    | none => none
+  | ["ts_clear"] => some (setTS st (getTS st).clear, "ok")
+  | ["ts_rfb", ttok] =>
+    -- the store over register 1 := restore_from_bytes(snapshot_bytes(register 0))
+    match parseBool ttok with
+    | some ttok =>
+      let sn := st.r0.snapshot (fun _ => ttok)
+      let new := Router.restore id sn.2
+      some (setTS { st with r0 := sn.1 } ((getTS st).restoreFromBytes new (new.scan [])), "ok")
+    | none => none
+  | ["ts_load", ttok, bloom] =>
+    -- the store over register 1 := load_snapshot / load_snapshot_with_bloom_filter / recover_with_bloom
+    -- of the file save_snapshot(register 0) wrote
+    match parseBool ttok, parseBool bloom with
+    | some ttok, some b =>
+      let sn := st.r0.snapshot (fun _ => ttok)
+      let new := Router.restore id sn.2
+      some (setTS { st with r0 := sn.1 } (if b then TStore.loadWithBloom new (new.scan []) else TStore.load new), "ok")
+    | _, _ => none
+  | ["ts_kv", probes] =>
+    match (if probes = "-" then some [] else (probes.splitOn ",").mapM parseName) with
+    | some ps =>
+      let s := getTS st
+      let listed := s.scan []
+      some (st, joinOr "&" ((listed ++ ps).eraseDups.map (fun k =>
+        let a := s.get fpNone k
+        let e := s.exists fpNone k
+        let l := if k ∈ listed then "1" else "0"
+        if a = s.get fpAll k ∧ e = s.exists fpAll k then
+          showName k ++ ":" ++ l ++ (if e then "1" else "0") ++ "~" ++ showOptData a
+        else showName k ++ ":" ++ l ++ "?~fp-dependent")))
     | none => none
   | ["g_add", r, src, dst, ty, directed] =>
     match getReg st r, src.toNat?, dst.toNat?, parseName ty, parseBool directed with
@@ -545,7 +612,7 @@ def storeStep (st : DState) (ws : List String) : Option (DState × String) :=
     | none => none
   | _ => none
 
-def isStoreOp (w : String) : Bool := w.startsWith "rt_" || w.startsWith "g_" || w.startsWith "b_"
+def isStoreOp (w : String) : Bool := w.startsWith "rt_" || w.startsWith "ts_" || w.startsWith "g_" || w.startsWith "b_"
 
 def fullStep (st : DState) (line : String) : DState × String :=
   match words line with
